@@ -271,25 +271,48 @@ func c11Run(c *Ctx) {
 			fail("position", "after-ftyp", fmt.Sprintf("after ReadFTYP the stream stands at %d, the ftyp box ends at %d", p, top[0].End))
 			return
 		}
-		for i := 1; i < len(top); i++ {
+		// One call processes the next top-level box. Boxes that are not interpreted (free, skip,
+		// vendor boxes) may be skipped one per call or together with the call that reaches the next
+		// interpreted box (moov, meta, mdat, a uuid box) - the property fixes neither; what it fixes
+		// is that the stream then stands at a top-level boundary, never beyond the first interpreted
+		// box it had in front of it.
+		interp := func(t string) bool { return t != "extra" && t != "free" }
+		for i := 1; i < len(top); {
 			err = bmr.ReadMetadata()
 			steps = append(steps, harness.CanonErr(err))
 			p := pos()
-			if p > top[i].End {
-				fail("position", "escape-"+top[i].Type, fmt.Sprintf("ReadMetadata on top-level box %s [%d,%d) left the stream at %d, beyond the box (err=%v; %s)", top[i].Type, top[i].Start, top[i].End, p, err, malDesc))
+			lim := i
+			for lim < len(top)-1 && !interp(top[lim].Type) {
+				lim++
+			}
+			if p > top[lim].End {
+				fail("position", "escape-"+top[lim].Type, fmt.Sprintf("ReadMetadata on top-level box %s [%d,%d) left the stream at %d, beyond the box (err=%v; %s)", top[lim].Type, top[lim].Start, top[lim].End, p, err, malDesc))
 				return
 			}
-			if err == nil && p != top[i].End && !malformed {
-				fail("position", "after-"+top[i].Type, fmt.Sprintf("ReadMetadata returned nil for top-level box %s [%d,%d) but the stream stands at %d, not at the next top-level box", top[i].Type, top[i].Start, top[i].End, p))
+			j := -1
+			for k := i; k <= lim; k++ {
+				if top[k].End == p {
+					j = k
+				}
+			}
+			if err == nil && j < 0 && !malformed {
+				fail("position", "after-"+top[lim].Type, fmt.Sprintf("ReadMetadata returned nil with top-level box %s [%d,%d) next to process but the stream stands at %d, not at a top-level boundary up to the end of that box", top[lim].Type, top[lim].Start, top[lim].End, p))
 				return
 			}
 			if err != nil && !malformed {
-				fail("position", "error-"+top[i].Type, fmt.Sprintf("ReadMetadata failed on well-formed top-level box %s [%d,%d): %v", top[i].Type, top[i].Start, top[i].End, err))
-				return
+				rest := false
+				for k := i; k < len(top); k++ {
+					rest = rest || interp(top[k].Type)
+				}
+				if rest || j < 0 {
+					fail("position", "error-"+top[lim].Type, fmt.Sprintf("ReadMetadata failed with well-formed top-level box %s [%d,%d) next to process: %v", top[lim].Type, top[lim].Start, top[lim].End, err))
+				}
+				return // nothing interpretable was left: the end of the stream was reached while skipping
 			}
-			if p != top[i].End {
+			if j < 0 {
 				return // desynchronised by the malformed child: nothing further is promised
 			}
+			i = j + 1
 		}
 	})
 	c.D.Str(strings.Join(steps, ";"))
